@@ -783,6 +783,9 @@ impl Context {
     where
         F: FnOnce(&mut Context, Opcode) -> ControlFlow<CompletionRecord>,
     {
+        #[cfg(boa_verif)]
+        crate::verif::codeblock::depth_event(self);
+
         #[cfg(feature = "fuzz")]
         {
             use crate::error::EngineError;
